@@ -35,7 +35,7 @@ REQUIRED_LABELS = {"class:singular": 0.12, "layout:permuted": 0.08, "kind:div": 
 
 
 def budget(tier):
-    n = int(os.environ.get("KV_EXAMPLES", 0)) or (1600 if tier == "quick" else 16000)
+    n = int(os.environ.get("KV_EXAMPLES", 0)) or (3200 if tier == "quick" else 16000)
     return {"examples": n, "shards": 16, "wall": 100 if tier == "quick" else 1200}
 
 
